@@ -566,8 +566,20 @@ class SelectionGraphBuilder:
         self.add_map(node, output)
 
     def do_phi(self, node):
-        """Refer to the correct copy of the phi node"""
-        vreg = self.function_info.phi_map[node]
+        """Copy the phi register into a fresh register at block entry.
+
+        The phi register itself is overwritten by the phi copies at the end
+        of every predecessor block, also when that predecessor is this block
+        and also when the branch leaves the loop. The value of the phi node
+        can still be in use at that point (by the branch condition, or in a
+        successor block: the lost copy problem). So never refer to the phi
+        register directly, but to a copy of it.
+        """
+        phi_vreg = self.function_info.phi_map[node]
+        sgnode = self.new_node("REG", node.ty, value=phi_vreg)
+        val = sgnode.new_output(phi_vreg.name)
+        vreg = self.new_vreg(node.ty)
+        self.chain(self.new_node("MOV", node.ty, val, value=vreg))
         sgnode = self.new_node("REG", node.ty, value=vreg)
         output = sgnode.new_output(node.name)
         output.vreg = vreg
